@@ -123,6 +123,10 @@ func Driver() int {
 		outDir = "/verif/.build/out"
 	}
 	os.MkdirAll(outDir, 0o755)
+	if info.Engine == "threads" {
+		// race reports go to per-process log files; the process keeps running and exits normally
+		os.Setenv("GORACE", fmt.Sprintf("log_path=%s halt_on_error=0 exitcode=0", filepath.Join(outDir, "race")))
+	}
 	verifDir := os.Getenv("VERIF_DIR")
 	if verifDir == "" {
 		verifDir = "/verif"
